@@ -296,10 +296,11 @@ def igReady (cfg : Cfg) (p : Proc) (s : St) (n : Node) (g : IgSt) (work : List T
   match g.activated with
   | none => (false, s)
   | some a =>
-    -- (a gateway with at most one incoming flow joins nothing: BPMN's inclusive join waits for tokens that can still
-    -- arrive on an EMPTY incoming flow — with a single incoming flow, which holds the arriving token, there is none; so
-    -- the earliest allowed point is "at once", as the latest one)
-    let early := n.ins.length ≤ 1 || !upstreamLive p s n.id work g.arrived
+    -- (a token that descends from NO inclusive fork activation joins nothing: the property's join clause is about the
+    -- branches of a fork activation — "no earlier than when every activated branch that leads to it has delivered" — and
+    -- such a token has none; so the earliest allowed point is "at once", as the latest one (`lateReady`). Tokens of one fork
+    -- activation are waited for however they reach the gateway — also over ONE shared incoming flow, merged upstream.)
+    let early := (s.tagsOf a).isEmpty || !upstreamLive p s n.id work g.arrived
     let late := lateAt s n a g.arrived work
     if cfg.inclCohort then
       let awaiting := cohort s a
